@@ -169,3 +169,17 @@ PROPS['C18'] = dict(
              'agent / service nodes excluded; never empty; not longer than requested': 'P',
              'node-file / scheduler-specific parsing': 'not yet built',
              'same list seen by every component (registry)': 'A'})
+
+PROPS['C12'] = dict(
+    level='other',
+    claim='client-side binding for the round-robin scheduler: _assign_pilot (bound to exactly that pilot, recorded once), _update_pilot_states, control_cb (roles on add / remove, early-bound tasks forwarded when their pilot is added and not kept for a second forwarding), work (named tasks go to the named pilot or wait for it), RoundRobin.add_pilots / remove_pilots / _work / _schedule_tasks (tasks wait while no pilot is eligible, every unnamed task is bound to a currently added pilot and forwarded exactly once, consecutive round-robin order) are verified for every history step; forwarding is a ghost event log',
+    note='the load-balance corollary (consecutive cyclic assignment => loads differ by at most one) is checked by the bounded native histories only; the Backfilling scheduler is not yet under contract',
+    assumptions=['A2', 'A4', 'A5', 'A7', 'A9', 'A10', 'A11'],
+    trusted_base=['Session._get_*_sandbox, ru.Url (sandbox derivation): arbitrary values'],
+    explanation='operation-granularity contracts with a ghost forwarding log; data-structure invariant rr_inv (listed pilots are ADDED and bound)',
+    clauses={'named task goes to the named pilot / waits until it is added': 'P',
+             'unnamed task bound to a currently added pilot, never a removed one': 'P',
+             'forwarded exactly once (incl. remove + re-add)': 'P',
+             'wait while no eligible pilot': 'P',
+             'round robin loads differ by at most one': 'B (consecutive order P, corollary by native histories)',
+             'backfilling eligibility / HWM / usage': 'not yet built'})
